@@ -105,8 +105,9 @@ Definition pretty_val (o : option value) : pystr :=
    diff_path = level.path(), the type names and the values.  verbose_level is
    the level's attribute (DeepDiff's verbose_level); the extended templates
    are chosen by [verbose_level == 2].  iterable_item_moved has NO template:
-   [.get(report_type, "")] gives the empty statement.  The set templates
-   contain the literal text "root[" - not the path of the set. *)
+   [.get(report_type, "")] gives the empty statement.  The set templates name
+   the set through set_path = level.up.path() = the entry's key sequence
+   (since fix 9738d10; before, the literal text "root["). *)
 Definition pretty_of (verbose : nat) (e : entry) : pystr :=
   let P := render (ep1 e) in
   let V1 := pretty_val (et1 e) in
@@ -125,8 +126,8 @@ Definition pretty_of (verbose : nat) (e : entry) : pystr :=
   | KIterRem => if two then s2p "Item " ++ P ++ s2p " (" ++ V1 ++ s2p ") removed from iterable."
                 else s2p "Item " ++ P ++ s2p " removed from iterable."
   | KIterMoved => []
-  | KSetAdd => s2p "Item root[" ++ V2 ++ s2p "] added to set."
-  | KSetRem => s2p "Item root[" ++ V1 ++ s2p "] removed from set."
+  | KSetAdd => s2p "Item " ++ P ++ s2p "[" ++ V2 ++ s2p "] added to set."
+  | KSetRem => s2p "Item " ++ P ++ s2p "[" ++ V1 ++ s2p "] removed from set."
   | KRepetition => s2p "Repetition change for item " ++ P ++ s2p "."
   end%list.
 
